@@ -46,6 +46,7 @@ def check_C03(report, tier, seed):
                             "qos", "pfi", "connect311", "suback311"], "C03")
     S.suite_decode(report, tier, seed, "C03")
     S.suite_size_limit_headers(report, "C03")
+    S.suite_engine_inbound_size(report, "C03")
     # the decoder inside the engine: hostile bytes on one connection, then well-formed traffic on the next ones
     import suites_engine as E
     walks = E.run_walks(seed, tier, "engine-c03", 120, 3000, adversarial=True)
@@ -118,6 +119,12 @@ def check_C11(report, tier, seed):
     # garbage, reset anywhere): same responses from model and implementation, and never a panic
     S.exhaustive(report, "C11", 3 if tier == "quick" else 4)
     S.pubrel_race_family(report, "C11")
+    # a server that follows the protocol is never reported as violating it: which inbound size limit is in force
+    import suites_codec
+    suites_codec.suite_engine_inbound_size(report, "C11")
+    # no configuration value the builders accept can make the client panic: the websocket upgrade request for any endpoint string
+    import suites_drivers
+    suites_drivers.suite_ws_request(report, "C11")
 def check_C14(report, tier, seed):
     import suites_engine as S
     engine_check("C14", report, tier, seed, snap_after_svc=True)
@@ -198,6 +205,7 @@ def check_C13(report, tier, seed):
     gv.theorem_obligations(report, "GV/Props/C13.lean", "GV.Props.C13", audit=True)
     S.suite_ws(report, tier, seed, "C13")
     S.suite_ws_write(report, tier, seed, "C13")
+    S.suite_ws_aread(report, tier, seed, "C13")
     S.suite_flush_service(report, "C13")
     S.suite_fidelity(report, tier, seed, "C13")
     S.suite_reconnect_fidelity(report, tier, seed, "C13")
